@@ -66,6 +66,16 @@ func c05Program(e *Env) (string, []string) {
 	}
 	// every declared metric must be used or the compiler rejects the program
 	sb.WriteString("/^ZZ (?P<q>\\d+)$/ {\n  c0[\"z\"]++\n  c1++\n  g0 = $q\n  ts = timestamp()\n  s0 = \"z\"\n}\n")
+	// one program in three ends in an else branch whose last statement — the last instruction of the
+	// whole program — stops the line or raises a runtime error
+	switch e.Choose("gen", 6) {
+	case 0:
+		names = append(names, "tail-else-stop")
+		sb.WriteString("/^[a-m]/ {\n  c0[\"head\"]++\n} else {\n  c0[\"tail\"]++\n  stop\n}\n")
+	case 1:
+		names = append(names, "tail-else-error")
+		sb.WriteString("/^[a-m]/ {\n  c0[\"head\"]++\n} else {\n  del c0[\"nobody\"] after 1h\n}\n")
+	}
 	return sb.String(), names
 }
 
